@@ -13,6 +13,7 @@
 #include <string.h>
 
 #include <algorithm>
+#include <functional>
 
 #include "codec/gen.h"
 #include "codec/wire.h"
@@ -104,7 +105,26 @@ struct Op {                       // one operation on a prior state, repeatable
 // Runs the operation once with the failure counter as armed by the caller.
 // Returns: 1 success (and *after = resulting bytes), 0 reported out of memory (and *after = bytes of the prior
 // state object afterwards, "" if there is none), -1 not applicable to this message.
-int run_once(const Op &op, std::string *after, std::string *problem, bool armed) {
+static bool apply_edit(DBusMessage *m, const Op &op) {
+  dbus_bool_t ok = TRUE;
+  const char *s = op.edit_str.empty() ? nullptr : op.edit_str.c_str();
+  switch (op.edit) {
+    case 0: ok = dbus_message_set_destination(m, s); break;
+    case 1: ok = dbus_message_set_sender(m, s); break;
+    case 2: ok = dbus_message_set_path(m, s); break;
+    case 3: ok = dbus_message_set_interface(m, s); break;
+    case 4: ok = dbus_message_set_member(m, s); break;
+    case 5: ok = dbus_message_set_error_name(m, s); break;
+    case 6: ok = dbus_message_set_reply_serial(m, op.edit_u); break;
+    case 7: dbus_message_set_no_reply(m, op.edit_u & 1); break;
+    case 8: dbus_message_set_auto_start(m, op.edit_u & 1); break;
+  }
+  return ok;
+}
+
+// same_object: called (failure counter disabled) with the very message object whose edit has just reported out of
+// memory - "succeeds when retried" is about that object, not about a fresh copy
+int run_once(const Op &op, std::string *after, std::string *problem, bool armed, const std::function<void(DBusMessage *)> &same_object = nullptr) {
   int armed_counter = _dbus_get_fail_alloc_counter();
   _dbus_set_fail_alloc_counter(0x7fffffff);
   DBusError err;
@@ -145,23 +165,12 @@ int run_once(const Op &op, std::string *after, std::string *problem, bool armed)
     else { *after = marshal_of(m); result = 0; }
     _dbus_set_fail_alloc_counter(left);
   } else if (op.kind == "edit") {
-    dbus_bool_t ok = TRUE;
-    const char *s = op.edit_str.empty() ? nullptr : op.edit_str.c_str();
-    switch (op.edit) {
-      case 0: ok = dbus_message_set_destination(m, s); break;
-      case 1: ok = dbus_message_set_sender(m, s); break;
-      case 2: ok = dbus_message_set_path(m, s); break;
-      case 3: ok = dbus_message_set_interface(m, s); break;
-      case 4: ok = dbus_message_set_member(m, s); break;
-      case 5: ok = dbus_message_set_error_name(m, s); break;
-      case 6: ok = dbus_message_set_reply_serial(m, op.edit_u); break;
-      case 7: dbus_message_set_no_reply(m, op.edit_u & 1); break;
-      case 8: dbus_message_set_auto_start(m, op.edit_u & 1); break;
-    }
+    dbus_bool_t ok = apply_edit(m, op);
     int left = _dbus_get_fail_alloc_counter();
     _dbus_set_fail_alloc_counter(0x7fffffff);
     *after = marshal_of(m);
     result = ok ? 1 : 0;
+    if (!ok && same_object) same_object(m);
     _dbus_set_fail_alloc_counter(left);
   } else if (op.kind == "build") {
     // the whole message through the public construction API
@@ -260,13 +269,34 @@ core::RunResult run_oomlib(const Plan &plan, bool log) {
       if (getenv("SIM_OOMK_TRACE")) { printf("OOMK %ld\n", k); fflush(stdout); }
       _dbus_set_fail_alloc_counter((int)k);
       problem.clear();
-      int r = run_once(op, &after, &problem, true);
+      std::string same_problem;
+      auto same_object = [&](DBusMessage *m) {
+        // retry on the same object with memory available, then keep using it: header edits of every length class
+        if (!apply_edit(m, op)) { same_problem = "the same edit on the same message fails again although memory is available"; return; }
+        std::string got = marshal_of(m);
+        wire::ParseResult g = wire::parse(got);
+        std::string why;
+        if (g.status != wire::P_OK) { same_problem = "after the retry on the same message the result is not a valid message (" + g.reason + ")"; return; }
+        if (!same_content(g.msg, want, &why)) { same_problem = "after the retry on the same message " + why + " differ from what the operation means"; return; }
+        wire::Msg w2 = want;
+        for (int len = 1; len <= 9; len++) {
+          std::string name = ":1." + std::string((size_t)len, '7');
+          if (!dbus_message_set_destination(m, name.c_str())) { same_problem = "a later set_destination fails although memory is available"; return; }
+          w2.set_field(wire::F_DESTINATION, wire::Value::string(name));
+          wire::ParseResult g2 = wire::parse(marshal_of(m));
+          if (g2.status != wire::P_OK) { same_problem = "a later set_destination(" + name + ") on the message yields an invalid message (" + g2.reason + ")"; return; }
+          if (!same_content(g2.msg, w2, &why)) { same_problem = "after a later set_destination(" + name + ") " + why + " are wrong"; return; }
+        }
+        counters["oom_same_object_retries"]++;
+      };
+      int r = run_once(op, &after, &problem, true, op.kind == "edit" ? std::function<void(DBusMessage *)>(same_object) : nullptr);
       bool fired = _dbus_get_fail_alloc_counter() > k;
       _dbus_set_fail_alloc_counter(0x7fffffff);
       counters["oom_runs"]++;
       tr.ev("k=%ld -> %d fired=%d", k, r, (int)fired);
       std::string tag = "[oom.k=" + std::to_string(k) + "] ";
       if (!problem.empty()) fail("oracle:C14:lib-state", "%s%s: %s", tag.c_str(), op.kind.c_str(), problem.c_str());
+      if (!same_problem.empty()) fail("oracle:C14:lib-retry-same-object", "%s%s reported out of memory; %s (%s)", tag.c_str(), op.kind.c_str(), same_problem.c_str(), hist.c_str());
       if (r < 0) fail("oracle:C14:lib-error", "%s%s failed with something other than out-of-memory when allocation %ld failed", tag.c_str(), op.kind.c_str(), k);
       if (r == 1) { judge_success(after, (tag + "although an allocation failed").c_str()); counters["oom_outcome_complete"]++; }
       else {
